@@ -64,25 +64,20 @@ A100_NAN = "a>100: Inv_GammaP/Inv_GammaQ returns NaN"
 A100_INV = "a>100: P(Inv_GammaP(p,a),a) differs from p by more than 1e-3"
 ULP_BINOM = 8         # "a few ulp" for n <= 170 (audit: worst 7.3)
 ULP_BINOM_LAWS = 6    # symmetry and Pascal's rule for n <= 170 (audit: worst 4)
-# OPEN DEFECTS with a repair proposed (second audit): True = the former behaviour is tolerated; rehearsal: LP_ASSUME_FIXED=C06-4,C06-5,C06-6
-_FIXED = set(os.environ.get("LP_ASSUME_FIXED", "").split(","))
-PENDING_P4 = "C06-4" not in _FIXED    # GammaQint 1e-5 / 10 sigma: CDF_Poisson decreases across k = 99 -> 100 (fixprop-C06-4)
-PENDING_BINOM_ALL = "C06-6" not in _FIXED  # Binomial n <= 170 through three rounded factorials: 132 wrong integers, 7.3 ulp (fixprop-C06-6)
-PENDING_P5 = "C06-5" not in _FIXED    # Upper/Lower_Incomplete_Gamma nan where Gamma(s) overflows (fixprop-C06-5)
-ASSUMPTIONS += [t for f, t in (
-    (PENDING_P4, "OPEN DEFECT P4 (fixprop-C06-4): monotone in x for a > 100 is judged at 1e-11 absolute; after the repair also relatively (1e-6 of the value) in the tails"),
-    (PENDING_BINOM_ALL, "OPEN DEFECT (fixprop-C06-6): Binomial_Coefficient and its laws at 8 / 6 ulp (factorial path n <= 170); after the repair 1 ulp"),
-    (PENDING_P5, "OPEN DEFECT P5 (fixprop-C06-5): Upper/Lower_Incomplete_Gamma are requested for s <= 170 only (nan where Gamma(s) overflows)"),
-    (not PENDING_P5, "Upper/Lower_Incomplete_Gamma where Gamma(s) = inf: the value is Gamma(s) times the regularized fraction as GammaQ/GammaP return it; where that fraction "
-                     "underflows to 0 (below 2.2e-308, or beyond the 13-sigma cut of the quadrature for s > 100) the part is 0 although the true value is positive")) if f]
+ASSUMPTIONS += ["Upper/Lower_Incomplete_Gamma where Gamma(s) = inf (s > 171.62, s < 5.6e-309): the value is Gamma(s) times the regularized fraction as GammaQ/GammaP "
+                "return it (fix 242fd82); RESIDUAL of audit defect P5: where that fraction underflows to 0 (below 2.2e-308, or beyond the 13-sigma cut of the "
+                "quadrature for s > 100) the part is 0 although the true value is positive: Lower_Incomplete_Gamma(1,200) = 0 (true 1.8486e-3), "
+                "Upper_Incomplete_Gamma(1000,200) = 0 (true 6.3e162); the clause demands Upper + Lower = Gamma (inf included), no nan, and "
+                "part = Gamma(s) x fraction within 1e-11 wherever the fraction is not 0",
+                "GammaQ/GammaP for a > 100 (quadrature, fix 3e583ff: 1e-10 per panel, +-13 sigma): monotone in x at 1e-11 absolute; measured accuracy "
+                "median 5e-15, 99.9 percent within 4e-11, worst 8.3e-9 in 28000 arguments (the property demands 1e-3)"]
 ASSUMPTIONS += ["Gamma(x) = +inf is the correctly rounded answer (and is demanded) for x beyond 171.62437695630271, the last double whose Gamma does not "
                 "exceed DBL_MAX, and for 0 < x below about 1/DBL_MAX = 5.56e-309; wherever the reference is finite a finite value within 1e-14 is demanded",
                 "remaining exclusions (counted as 'excused' in the evidence): the bit-identity of GammaQ with the evaluator the model selects is not "
                 "demanded when the decision x < a+1.0 differs between double and exact arithmetic (a+1.0 rounds; the value clauses still apply); "
                 "the inversion clause P(Inv_GammaP(p,a),a) = p is evaluated only where the exact preimage is a normal double",
-                "'a few units in the last place' is 8 ulp for Factorial and Binomial_Coefficient (6 ulp for symmetry and Pascal's rule), 16 ulp for "
-                "Gamma(x+1) = x Gamma(x); within it the factorial path n <= 170 returns 132 representable integers that are not C(n,k) (worst 7.3 ulp, "
-                "3546 asymmetric pairs; probe of all 0 <= k <= n <= 170), the product path 171 <= n <= 400 none (worst 0.5 ulp)"]
+                "'a few units in the last place' is 8 ulp for Factorial, 1 ulp for Binomial_Coefficient and its laws (the gcd-reduced product of fix 2890841 is "
+                "correctly rounded: worst 0.5 ulp, every representable C(n,k) exact for 0 <= k <= n <= 400), 16 ulp for Gamma(x+1) = x Gamma(x)"]
 
 def ratio(ctx, clause, err, tol):
     """record the worst err/tol per clause (goes into the evidence) and return pass/fail"""
@@ -268,10 +263,8 @@ def generate(tier, seed, ctx):
     for j in range(nq):
         a = draw_a(); x = draw_x(a)
         op = ("c06.gammaq", "c06.gammap", "c06.uplow")[j % 3 if j % 5 else 0]
-        if op == "c06.uplow" and a > 170 and PENDING_P5:
-            op = "c06.gammaq"           # Gamma(s) overflows: Upper/Lower are inf*Q (nan before fixprop-C06-5)
         R.append("%s %s %s" % (op, hx(x), hx(a)))
-    if not PENDING_P5:      # Upper/Lower where Gamma(s) overflows (s > 171.62, s < 5.6e-309): the clause Upper + Lower = Gamma includes inf
+    if True:                # Upper/Lower where Gamma(s) overflows (s > 171.62, s < 5.6e-309): the clause Upper + Lower = Gamma includes inf
         for j in range(120 if th else 40):
             sg = rng.choice([172.0, 200.0, 171.7, 10.0 ** rng.uniform(2.24, 4), rng.uniform(171.63, 400)]) if j % 5 else 10.0 ** rng.uniform(-320, -308.3)
             xx = rng.choice([0.0, 1.0, 1000.0, max(0.0, sg + rng.uniform(-4, 4) * math.sqrt(sg)), rng.uniform(0, 3 * sg + 10)])
@@ -447,7 +440,7 @@ def model_Q(x, a, mt):
 
 def binom_tol(n, ex, ulps=ULP_BINOM):
     """few ulp for n<=170 (below one unit this forces the exact integer), 2e-11 relative for n>170"""
-    t = (ulps if PENDING_BINOM_ALL else 1) * 2 * EPS * ex          # after fixprop-C06-6: correctly rounded (0.5 ulp), 1 ulp demanded
+    t = 1 * 2 * EPS * ex          # fix 2890841: the product is correctly rounded (0.5 ulp measured); 1 ulp demanded
     return t if t >= 1 else Fraction(1, 2)
 
 
@@ -561,7 +554,7 @@ def _check(op, a, ti, mt, ctx, rq):
         if mt is not None:
             if fr(mt[0]) != ex:
                 out.append(fail("corr", "model binomial (floor formula / gcd-reduced product) is not C(n,k)", ""))
-            if len(ti) > 1 and len(mt) > 1 and int(ti[1]) != (int(mt[1]) if PENDING_BINOM_ALL else 1):   # after fixprop-C06-6 the memo table is not touched
+            if len(ti) > 1 and len(mt) > 1 and int(ti[1]) != int(mt[1]):
                 out.append(fail("corr", "Binomial_Coefficient: memo table size differs from the model", ""))
     elif op in ("c06.gammaln", "c06.gamma"):
         x = fl(a[0]); v = fl(ti[0])
@@ -661,7 +654,7 @@ def _check(op, a, ti, mt, ctx, rq):
             gs = mpmath.gamma(M(S))
             if gs <= mpf(DBL_MAX) and not (math.isfinite(G) and ratio(ctx, "Gamma(s) inside Upper/Lower vs mpmath.gamma", abs(mpf(G) - gs) if math.isfinite(G) else 1, gs * TOL_LN)):
                 out.append(fail("prop", "Upper/Lower_Incomplete_Gamma: Gamma(s) overflows or disagrees with the reference although it is finite", "s=%r Gamma(s)=%r reference %s" % (s, G, mpmath.nstr(gs, 17))))
-            if not PENDING_P5 and math.isinf(G):
+            if math.isinf(G):
                 # Gamma(s) overflows: no nan, Upper + Lower = Gamma = inf, and each part is Gamma_ref * fraction wherever that is representable
                 if math.isnan(U) or math.isnan(L) or U < 0 or L < 0 or U + L != G:
                     out.append(fail("prop", "Upper + Lower incomplete gamma is not Gamma (Gamma(s) = inf)", "x=%r s=%r U=%r L=%r G=%r" % (x, s, U, L, G)))
